@@ -195,6 +195,51 @@ pub fn gen_long_session(src: &mut Src, _i: usize) -> Case {
     case
 }
 
+/// bulk: one call leaves a backlog of thousands of lines (beyond 1024/4096/8192/65535-cell REP)
+pub fn gen_bulk(src: &mut Src, _i: usize) -> Case {
+    let (cols, rows) = if src.chance(1, 3) { (*src.pick(&[80usize, 200]), 24) } else { gen::small_size(src) };
+    let limit = *src.pick(&LIMITS);
+    let mut case = Case::new(cols, rows, Some(limit));
+    let n = src.range(1, 3);
+    for _ in 0..n {
+        let lines = *src.pick(&[1025usize, 4097, 8193, 9000, 20000]);
+        let mut s = String::new();
+        if src.chance(1, 4) {
+            s.push_str("\x1b[?1049h");
+        }
+        match src.below(4) {
+            0 => s.push_str(&"\n".repeat(lines + rows)),
+            1 => {
+                for k in 0..lines {
+                    s.push_str(&format!("{}\r\n", k % 10));
+                }
+            }
+            2 => {
+                for k in 0..lines * cols.min(12) {
+                    s.push((b'a' + (k % 26) as u8) as char);
+                }
+            }
+            _ => {
+                // fill wide rows, then narrow: every row multiplies
+                for k in 0..(lines / cols.max(1)).max(150) {
+                    for j in 0..cols * 2 - 1 {
+                        s.push((b'a' + ((k + j) % 26) as u8) as char);
+                    }
+                    s.push_str("\r\n");
+                }
+            }
+        }
+        case.calls.push(Call::FeedStr(s));
+        if src.chance(1, 2) {
+            case.calls.push(Call::Resize(src.range(1, 3), rows));
+            case.calls.push(Call::Resize(cols, rows));
+        }
+        case.calls.push(Call::FeedStr("x".into()));
+    }
+    case.nums = vec![src.below(3)];
+    case
+}
+
 /// wide content then narrowing (multiplies rows), for every limit
 fn enum_narrowing() -> Vec<Case> {
     let mut v = vec![];
@@ -239,6 +284,7 @@ pub fn run(env: &Env) -> PropRun {
     let mut parts = vec![];
     let en = enum_narrowing();
     parts.push(run_part(env, "enum-narrowing", en.len(), true, "12 limits x 3 sizes x {1,5,30} long lines x narrowing to {1,2,3,7} columns x with/without an alternate-screen excursion x 3 drain patterns", &|i| en.get(i).cloned(), &j));
+    parts.push(random_part(env, "bulk-backlog", env.tier.scale(160, 20), &gen_bulk, &j));
     parts.push(random_part(env, "long-sessions", env.tier.scale(400, 30), &gen_long_session, &j));
     parts.push(random_part(env, "random-histories", env.tier.scale(120_000, 30), &gen_case, &j));
     PropRun {
